@@ -418,11 +418,86 @@ var c14Stray = hx.Define("c14.error-inside-included", func(c *c14StrayCase, s *h
 	return nil
 })
 
+// "Source registered through ParseTemplateAndCache is used when no such file exists": also when the reason
+// is another than ENOENT, whatever the caller does with its buffer afterwards; and a string is a string
+// whatever its Go type
+
+type c14CacheCase struct {
+	Kind string `json:"kind"`
+}
+
+var c14Cache = hx.Define("c14.cache-corners", func(c *c14CacheCase, s *hx.Sub) *hx.Violation {
+	base := os.Getenv("VERIF_OUT")
+	if base == "" {
+		base = os.TempDir()
+	}
+	c14Seq++
+	dir, err := os.MkdirTemp(base, fmt.Sprintf("c14c-%d-", c14Seq))
+	if err != nil {
+		return hx.V("harness-error", "mkdir: %v", err)
+	}
+	defer os.RemoveAll(dir)
+	eng := newEngine(nil)
+	name, binds := "part.html", map[string]any{"x": 1}
+	src := `{% include "part.html" %}`
+	switch c.Kind {
+	case "under-a-regular-file": // open fails with ENOTDIR: no such file exists
+		name = "file.html/under.html"
+		src = `{% include "file.html/under.html" %}`
+		if err := os.WriteFile(filepath.Join(dir, "file.html"), []byte("a regular file"), 0o644); err != nil {
+			return hx.V("harness-error", "write: %v", err)
+		}
+	case "name-too-long": // ENAMETOOLONG
+		name = strings.Repeat("n", 300) + ".html"
+		src = `{% include "` + name + `" %}`
+	case "buffer-reused", "plain":
+	case "named-string-argument", "pointer-to-named-string", "named-string-in-array":
+		src = map[string]string{"named-string-argument": `{% include n %}`, "pointer-to-named-string": `{% include pn %}`, "named-string-in-array": `{% include ns[0] %}`}[c.Kind]
+		n := hx.NamedString("part.html")
+		binds["n"], binds["pn"], binds["ns"] = n, &n, []any{n}
+	}
+	buf := []byte("[cached {{ x }}]")
+	if _, perr := eng.ParseTemplateAndCache(buf, filepath.Join(dir, name), 1); perr != nil {
+		return hx.V("harness-error", "cached source does not parse: %v", perr)
+	}
+	if c.Kind == "buffer-reused" {
+		copy(buf, "[XXXXXX {{ x }}]") // the caller reads the next file into the same buffer
+	}
+	var out string
+	var rerr error
+	if pi := hx.Guard(func() {
+		tpl, perr := eng.ParseTemplateLocation([]byte(src), filepath.Join(dir, "top.html"), 1)
+		if perr != nil {
+			rerr = perr
+			return
+		}
+		o, e := tpl.Render(binds)
+		out = string(o)
+		if e != nil {
+			rerr = e
+		}
+	}); pi != nil {
+		return hx.V("panic@"+pi.Site, "%s: %v", c.Kind, pi)
+	}
+	if rerr != nil || out != "[cached 1]" {
+		return hx.V("c14:cache-corner:"+c.Kind, "%s: %s with the source [cached {{ x }}] registered for %s (and no such file on disk) rendered %q, %v; expected [cached 1]", c.Kind, src, name, out, rerr)
+	}
+	s.NT()
+	return nil
+})
+
 func TestC14(t *testing.T) {
 	col := hx.NewCollector("C14")
 	defer col.Finish()
 	col.Corpus()
 	env := col.Env
+
+	cc := c14Cache.On(col, "exhaustive over a list: cached source for a path under a regular file (ENOTDIR) and for a name too long for the file system (ENAMETOOLONG) - no such file exists; the caller overwrites the buffer it registered; the include argument is a string of a named Go type, a pointer to one, an element of an array. Oracle: the cached source is rendered. Distinct by construction", true)
+	for i, k := range []string{"plain", "under-a-regular-file", "name-too-long", "buffer-reused", "named-string-argument", "pointer-to-named-string", "named-string-in-array"} {
+		if env.Mine(i) {
+			cc.Run(&c14CacheCase{Kind: k})
+		}
+	}
 
 	st := c14Stray.On(col, "exhaustive over a list: included files whose content fails when rendered directly (break / continue outside a loop, also nested in if and capture - not cycle, which works off the includer's forloop variable; a filter error; an unknown filter; a missing nested include) x includers with the include tag at top level, inside for, tablerow, nested loops, if inside a loop, capture inside a loop x file on disk / cached source. Oracle: the render fails with a SourceError and returns no output. Distinct by construction", true)
 	{
